@@ -93,7 +93,7 @@ def baseline_argument(el):
     does not name for this office), if the case has one."""
     extra = getattr(el, "pre_extra", None)
     if extra is None:
-        return el.pre.copy(deep=True)
+        return _row_order(el, el.pre.copy(deep=True))
     import pandas as pd
 
     extra = extra[[c for c in el.pre.columns if c in extra.columns]]
@@ -104,7 +104,17 @@ def baseline_argument(el):
             f[c] = f[c].astype(el.pre[c].dtype)
         except (TypeError, ValueError):
             pass
-    return f
+    return _row_order(el, f)
+
+
+def _row_order(el, f):
+    """Baseline files are not always grouped by state: a national file in fips order interleaves the states' rows
+    (AL=01 before AK=02).  el.meta["baseline_rows_shuffled"] = seed: the file handed to the client has its rows in a
+    random order (row labels 0..n-1 as after reading a csv); the checks keep working on el.pre."""
+    sd = el.meta.get("baseline_rows_shuffled")
+    if not sd:
+        return f
+    return f.sample(frac=1.0, random_state=int(sd)).reset_index(drop=True)
 
 
 def feed_argument(feed, call):
